@@ -185,6 +185,25 @@ pub fn special_v6(seed: u64) -> u128 {
     }
 }
 
+/// socket addresses as an application hands them to the agent (not what travels inside an
+/// attribute): as `sockaddr_strategy`, plus IPv6 addresses on a zone (scope id), link-local ones
+/// with and without a zone
+pub fn endpoint_strategy() -> BoxedStrategy<String> {
+    let ll = |scope: BoxedStrategy<u32>| {
+        (any::<u64>(), any::<u16>(), scope).prop_map(|(host, port, scope)| {
+            let ip = Ipv6Addr::from((0xfe80u128 << 112) | host as u128);
+            SocketAddr::V6(std::net::SocketAddrV6::new(ip, port, 0, scope)).to_string()
+        })
+    };
+    prop_oneof![
+        6 => sockaddr_strategy(),
+        1 => ll(Just(0u32).boxed()),
+        1 => ll((1u32..=9).boxed()),
+        1 => (any::<u128>(), any::<u16>(), 1u32..=9).prop_map(|(a, p, s)| SocketAddr::V6(std::net::SocketAddrV6::new(Ipv6Addr::from(a), p, 0, s)).to_string()),
+    ]
+    .boxed()
+}
+
 pub fn sockaddr_strategy() -> BoxedStrategy<String> {
     let port = prop_oneof![
         3 => any::<u16>(),
@@ -366,7 +385,12 @@ pub fn fields_strategy(kind: Kind) -> BoxedStrategy<Fields> {
             3 => error_code_plain(),
         ]
         .boxed(),
-        Kind::UnknownAttributes => vec(any::<u16>(), 0..6).prop_map(Fields::Types).boxed(),
+        Kind::UnknownAttributes => {
+            // mostly short lists; sometimes as long as a message with many unknown attributes gives,
+            // with repeats drawn from a small pool
+            let ty = || prop_oneof![4 => any::<u16>(), 1 => (0u16..12).prop_map(|i| 0x8000 + i * 0x101)];
+            prop_oneof![6 => vec(ty(), 0..6), 3 => vec(ty(), 6..48), 1 => vec(ty(), 48..300)].prop_map(Fields::Types).boxed()
+        }
         Kind::XorMappedAddress | Kind::AlternateServer => sockaddr_strategy().prop_map(Fields::Addr).boxed(),
         Kind::PasswordAlgorithm => (1u16..=2).prop_map(Fields::Algo).boxed(),
         Kind::PasswordAlgorithms => vec(1u16..=2, 1..5).prop_map(Fields::Algos).boxed(),
@@ -848,6 +872,21 @@ pub fn msg_spec(seal: BoxedStrategy<Seal>, max_attrs: usize, huge_pct: u32) -> B
                     });
                 }
             }
+            // about one message in 12: the last ordinary attribute is a value that reads like
+            // attributes itself (an encapsulated message body); when nothing is sealed after it the
+            // message ends in bytes that look like a FINGERPRINT / integrity attribute without being one
+            if (tid >> 24) % 12 == 0 && fill_body_to.is_none() {
+                let l = 8 + 4 * ((tid >> 32) as usize % 12);
+                let v = lookalike_value(l, (tid >> 40) as u64 | 1);
+                if (tid >> 30) % 3 == 0 && l >= 8 {
+                    // as a typed attribute: ICE-CONTROLLING with such a tie-breaker
+                    attrs.retain(|a| a.ty() != 0x802A);
+                    attrs.push(AttrSpec::Raw { ty: 0x802A, value: Hex(v[l - 8..].to_vec()) });
+                } else {
+                    attrs.retain(|a| a.ty() != 0xC2F0);
+                    attrs.push(AttrSpec::Raw { ty: 0xC2F0, value: Hex(v) });
+                }
+            }
             MsgSpec {
                 class,
                 method,
@@ -877,6 +916,9 @@ pub enum WireAttr {
     /// FINGERPRINT carrying this value whatever the CRC is (magic values: 0, all ones, the XOR
     /// constant "STUN", ...)
     FpAbs { value: u32 },
+    /// a FINGERPRINT-typed attribute of the wrong length `len` (0..=12) whose first bytes hold the
+    /// CRC value computed for exactly this layout (length field covering the padded attribute)
+    FpLong { len: u8, xor: u32 },
 }
 
 #[derive(Debug, Clone, PartialEq, Eq, Hash, Serialize, Deserialize)]
@@ -950,6 +992,18 @@ impl WireSpec {
                     refstun::push_tlv(&mut buf, refstun::T_FP, &v.to_be_bytes(), 0)
                 }
                 WireAttr::FpAbs { value } => refstun::push_tlv(&mut buf, refstun::T_FP, &value.to_be_bytes(), 0),
+                WireAttr::FpLong { len, xor } => {
+                    let len = (*len as usize).min(12);
+                    let start = buf.len();
+                    let mut pre = buf.clone();
+                    let l = (start + 4 + refstun::pad4(len) - 20) as u16;
+                    pre[2..4].copy_from_slice(&l.to_be_bytes());
+                    let crc = (crate::refimpl::crc32(&pre) ^ refstun::FP_XOR ^ xor).to_be_bytes();
+                    let mut v = crc.to_vec();
+                    v.extend(fill_bytes(8, start as u64 ^ self.tid as u64, 0));
+                    v.truncate(len);
+                    refstun::push_tlv(&mut buf, refstun::T_FP, &v, 0)
+                }
             }
         }
         refstun::set_len(&mut buf);
@@ -1047,6 +1101,7 @@ pub fn wire_attr() -> BoxedStrategy<WireAttr> {
         3 => prop_oneof![4 => Just(0u32), 1 => any::<u32>(), 1 => (0u32..32).prop_map(|b| 1u32 << b), 1 => Just(refstun::FP_XOR), 1 => Just(!refstun::FP_XOR)]
             .prop_map(|xor| WireAttr::Fp { xor }),
         1 => (0usize..FP_MAGIC.len()).prop_map(|i| WireAttr::FpAbs { value: FP_MAGIC[i] }),
+        1 => (prop_oneof![Just(8u8), Just(5u8), Just(3u8), 0u8..=12], prop_oneof![3 => Just(0u32), 1 => any::<u32>()]).prop_map(|(len, xor)| WireAttr::FpLong { len, xor }),
         // tail-typed attributes with unusual lengths
         1 => (prop_oneof![Just(refstun::T_MI), Just(refstun::T_SHA256), Just(refstun::T_FP)], bytes_len(0usize..=40))
             .prop_map(|(ty, v)| WireAttr::Plain { ty, value: Hex(v), pad: 0 }),
